@@ -167,11 +167,12 @@ def plant(rows: List[Dict], i: int, kind: str, margin: float = 2.0) -> bool:
     margin on every clause.  Needs i >= 10.  Returns False when it cannot be placed."""
     if i < 10 or i >= len(rows):
         return False
-    w = rows[i - 9:i + 1]
-    hl = sum(abs(r["high"] - r["low"]) for r in w) / 10
-    body = sum(abs(r["open"] - r["close"]) for r in w) / 10
+    w9 = rows[i - 9:i]                      # the nine candles before i; candle i itself is rewritten below
+    hl = sum(abs(r["high"] - r["low"]) for r in w9) / 10
+    body9 = sum(abs(r["open"] - r["close"]) for r in w9) / 9
+    body = body9
     prev = rows[i - 1]
-    if hl <= 0.05 or body <= 0.02:
+    if hl <= 0.05 or body9 <= 0.04:
         return False
     r = rows[i]
     if kind == "doji":
